@@ -53,8 +53,10 @@ TClosed == Is("Closed") /\ Closed(Ev.a) /\ Observed
 TSetPing == Is("SetPing") /\ SetPing(Ev.s, Ev.p) /\ Observed
 TSetAge == Is("SetAge") /\ SetAge(Ev.s, Ev.g) /\ Observed
 TTick == Is("Tick") /\ Tick(Ev.d) /\ Observed
-TBanAddr == Is("BanAddr") /\ BanAddr(Ev.a, Ev.t) /\ Observed
-TBanUntil == Is("BanUntil") /\ BanUntil(<<Ev.k, Ev.v>>, Ev.until) /\ Observed
+\* what an insertion swept is read off the logged ban list (it must have been expired: BanAddr / BanUntil check it)
+Swept(n, u) == (DOMAIN bans \cup {n}) \ DOMAIN BansOf(Ev.st.bans)
+TBanAddr == Is("BanAddr") /\ BanAddr(Ev.a, Ev.t, Swept(<<"ip", Ip(Ev.a)>>, 0)) /\ Observed
+TBanUntil == Is("BanUntil") /\ BanUntil(<<Ev.k, Ev.v>>, Ev.until, Swept(<<Ev.k, Ev.v>>, 0)) /\ Observed
 TUnban == Is("Unban") /\ Unban(<<Ev.k, Ev.v>>) /\ Observed
 TClearBans == Is("ClearBans") /\ ClearBans /\ Observed
 TAddAddr == Is("AddAddr") /\ AddAddr(Ev.a, SeqRange(Ev.fl), SeqRange(Ev.removed), Ev.ret) /\ Observed
